@@ -21,7 +21,7 @@ def gen_spec(rng, size=None, features=None):
     feats = features if features is not None else {
         'hdrs', 'steps', 'multi', 'gensrc', 'copy', 'alias', 'cmd', 'test',
         'extra', 'default', 'install', 'always', 'subdirs', 'shared', 'implicit', 'pch', 'prelib',
-        'versioned', 'cmds'}
+        'versioned', 'cmds', 'filelists'}
     n = size or rng.randint(4, 22)
     files = {}
     nodes = []
@@ -76,7 +76,8 @@ def gen_spec(rng, size=None, features=None):
         return next(nd for nd in nodes if nd['id'] == ref[1])
 
     kinds = ['obj', 'obj', 'exe', 'exe', 'slib', 'dlib', 'step', 'step', 'copy', 'alias',
-             'cmd', 'test', 'pch']
+             'cmd', 'test', 'pch', 'objs', 'copies']
+    plain_objs_used = [False]
     for _ in range(n):
         kind = rng.choice(kinds)
         i = nid()
@@ -102,10 +103,18 @@ def gen_spec(rng, size=None, features=None):
                 kind = 'slib'
             objs = [nd2['id'] for nd2 in nodes if nd2['kind'] == 'obj']
             use_objs = rng.sample(objs, rng.randint(0, min(3, len(objs))))
+            # single members, or the whole list, of an object_files() call
+            members = []
+            for nd2 in nodes:
+                if nd2['kind'] == 'objs' and rng.random() < 0.5:
+                    if rng.random() < 0.4:
+                        members.append(['list', nd2['id']])
+                    else:
+                        members.append(['node', nd2['id'], rng.randrange(len(nd2['srcs']))])
             use_srcs = []
             if 'implicit' in feats and (not use_objs or rng.random() < 0.5):
                 use_srcs = rng.sample(srcs, rng.randint(1, min(2, len(srcs))))
-            if not use_objs and not use_srcs:
+            if not use_objs and not use_srcs and not members:
                 use_srcs = [rng.choice(srcs)]
             pch_str = None
             if use_srcs:
@@ -118,7 +127,7 @@ def gen_spec(rng, size=None, features=None):
             libs = [nd2['id'] for nd2 in nodes if nd2['kind'] in ('slib', 'dlib')]
             nd = {'id': i, 'kind': kind,
                   'name': '%s%s%d' % (sub, {'exe': 'e', 'slib': 'l', 'dlib': 'l'}[kind], i),
-                  'objs': use_objs, 'srcs': use_srcs,
+                  'objs': use_objs, 'srcs': use_srcs, 'members': members,
                   'hdrs': rng.sample(hdrs, rng.randint(0, min(1, len(hdrs)))) if use_srcs else [],
                   'libs': rng.sample(libs, rng.randint(0, min(2, len(libs)))),
                   'extra': pick_extra(), 'pch_str': pch_str,
@@ -150,6 +159,24 @@ def gen_spec(rng, size=None, features=None):
                   'extra': pick_extra(),
                   'always': 'always' in feats and rng.random() < 0.12,
                   'env': rng.choice([None, None, 'v%d' % i, 'two words %d' % i, "q'%d$x" % i])}
+        elif kind == 'objs':
+            # object_files([...]): one compile step per source, named after the source
+            if 'filelists' not in feats or len(srcs) < 2:
+                continue
+            d = None if not plain_objs_used[0] and rng.random() < 0.3 else 'ob%d' % i
+            if d is None:
+                plain_objs_used[0] = True
+            nd = {'id': i, 'kind': 'objs', 'dir': d,
+                  'srcs': rng.sample(srcs, rng.randint(2, min(3, len(srcs)))),
+                  'hdrs': rng.sample(hdrs, rng.randint(0, min(1, len(hdrs)))),
+                  'extra': []}
+        elif kind == 'copies':
+            # copy_files([...], directory=...): one copy step per file, source layout kept
+            if 'filelists' not in feats or 'copy' not in feats or len(data) < 2:
+                continue
+            nd = {'id': i, 'kind': 'copies', 'dir': 'cp%d' % i,
+                  'srcs': rng.sample(data, 2), 'mode': rng.choice(['copy', 'copy', 'symlink']),
+                  'extra': []}
         elif kind == 'copy':
             if 'copy' not in feats:
                 continue
@@ -209,7 +236,8 @@ def gen_spec(rng, size=None, features=None):
     spec = {'files': files, 'nodes': nodes, 'default': None, 'install': None,
             'test_deps': []}
     buildable = [nd['id'] for nd in nodes if nd['kind'] in ('exe', 'slib', 'dlib', 'step',
-                                                            'copy', 'obj', 'pch')]
+                                                            'copy', 'obj', 'pch', 'objs',
+                                                            'copies')]
     if 'default' in feats and buildable and rng.random() < 0.3:
         spec['default'] = rng.sample(buildable, rng.randint(1, min(3, len(buildable))))
     inst = [nd['id'] for nd in nodes if nd['kind'] in ('exe', 'slib', 'dlib')]
@@ -238,6 +266,11 @@ def out_names(nd):
         return [nd['name']]
     if k == 'pch':
         return [nd['name'] + '.gch']
+    if k == 'objs':
+        pre = nd['dir'] + '/' if nd['dir'] else ''
+        return [pre + os.path.splitext(s)[0] + '.o' for s in nd['srcs']]
+    if k == 'copies':
+        return [nd['dir'] + '/' + s for s in nd['srcs']]
     return []
 
 
@@ -281,6 +314,8 @@ def render(spec, stub='vrec'):
         elif k in ('exe', 'slib', 'dlib'):
             fn = {'exe': 'executable', 'slib': 'static_library', 'dlib': 'shared_library'}[k]
             files = ['n%d' % o for o in nd['objs']] + [repr(s) for s in nd['srcs']]
+            listed = [m for m in nd.get('members', []) if m[0] == 'list']
+            files += ['n%d[%d]' % (m[1], m[2]) for m in nd.get('members', []) if m[0] == 'node']
             liblist = ['n%d' % l for l in nd['libs']] + \
                 ['static_library(%r)' % p for p in nd.get('prelibs', [])]
             libs = ', libs=[%s]' % ', '.join(liblist) if liblist else ''
@@ -289,8 +324,11 @@ def render(spec, stub='vrec'):
             pch = ', pch=%r' % nd['pch_str'] if nd.get('pch_str') else ''
             if nd.get('version'):
                 pch += ', version=%r, soversion=%r' % tuple(nd['version'])
-            L.append('%s = %s(%r, files=[%s]%s%s%s%s)' % (v, fn, nd['name'], ', '.join(files),
-                                                         libs, inc, pch, extra))
+            flist = '[%s]' % ', '.join(files)
+            for m in listed:
+                flist += ' + list(n%d)' % m[1]
+            L.append('%s = %s(%r, files=%s%s%s%s%s)' % (v, fn, nd['name'], flist,
+                                                       libs, inc, pch, extra))
         elif k == 'step':
             cmd = [repr(stub), repr('--id=%d' % i)] + [_ref(r) for r in nd['cmd_refs']] + \
                 ["'--touch'", 'build_step.output', "'--end'"]
@@ -300,6 +338,15 @@ def render(spec, stub='vrec'):
             envs = ", environment={'VF_E': %r}" % nd['env'] if nd.get('env') else ''
             L.append('%s = build_step(%s, cmd=[%s]%s%s%s%s)' % (v, name, ', '.join(cmd), files,
                                                                always, envs, extra))
+        elif k == 'objs':
+            inc = ', includes=[%s]' % ', '.join(_ref(['file', h]) for h in nd['hdrs']) \
+                if nd.get('hdrs') else ''
+            d = ', directory=%r' % nd['dir'] if nd['dir'] else ''
+            L.append('%s = object_files([%s]%s%s)' % (v, ', '.join(repr(x) for x in nd['srcs']),
+                                                     d, inc))
+        elif k == 'copies':
+            L.append('%s = copy_files([%s], directory=%r, mode=%r)' % (
+                v, ', '.join(_ref(['file', x]) for x in nd['srcs']), nd['dir'], nd['mode']))
         elif k == 'copy':
             L.append('%s = copy_file(%r, %s, mode=%r%s)' % (v, nd['name'], _ref(nd['src']),
                                                            nd['mode'], extra))
@@ -327,9 +374,10 @@ def render(spec, stub='vrec'):
             else:
                 L.append('test([%r, %r%s])' % (stub, '--id=%d' % i, ''.join(
                     ', ' + _ref(r) for r in nd['refs'])))
-        if k in ('obj', 'exe', 'slib', 'dlib', 'copy', 'step', 'alias', 'cmd', 'pch'):
+        if k in ('obj', 'exe', 'slib', 'dlib', 'copy', 'step', 'alias', 'cmd', 'pch', 'objs',
+                 'copies'):
             # uniform access to outputs
-            multi = k == 'step' and len(nd['outs']) > 1
+            multi = (k == 'step' and len(nd['outs']) > 1) or k in ('objs', 'copies')
             L.append('%s_out = %s' % (v, 'list(%s)' % v if multi else '[%s]' % v))
         if k not in ('test',):
             every.append(v + '_out')
@@ -358,6 +406,7 @@ class Model:
         #                                  'kind':..., 'node': id}
         self.node_steps = {}   # node id -> [sids] (all steps the node created)
         self.node_primary = {}  # node id -> sid of the step producing its outputs
+        self.node_multi = {}    # node id -> [sids] for nodes made of several steps (file lists)
         self.producer = {}     # file id -> sid
         self.members = {}      # phony name -> set(node ids)
         self.tests = []
@@ -395,8 +444,24 @@ class Model:
                 [self.fid(r) for r in nd['ghdrs']]
             self._step('pch%d' % i, i, 'pch', ins, ['B:' + nd['name'] + '.gch'])
             self.node_primary[i] = 'pch%d' % i
+        elif k == 'objs':
+            self.node_multi[i] = []
+            for j, (src, o) in enumerate(zip(nd['srcs'], out_names(nd))):
+                sid = 'objs%d/%d' % (i, j)
+                self._step(sid, i, 'compile', ['S:' + src] + ['S:' + h for h in nd['hdrs']],
+                           ['B:' + o])
+                self.node_multi[i].append(sid)
+        elif k == 'copies':
+            self.node_multi[i] = []
+            for j, (src, o) in enumerate(zip(nd['srcs'], out_names(nd))):
+                sid = 'copies%d/%d' % (i, j)
+                self._step(sid, i, 'copy', ['S:' + src], ['B:' + o])
+                self.node_multi[i].append(sid)
         elif k in ('exe', 'slib', 'dlib'):
             objs = ['B:' + out_names(self.byid[o])[0] for o in nd['objs']]
+            for mm in nd.get('members', []):
+                names = out_names(self.byid[mm[1]])
+                objs += ['B:' + x for x in (names if mm[0] == 'list' else [names[mm[2]]])]
             gch = []
             if nd.get('pch_str'):
                 gch = ['B:' + nd['pch_str'] + '.gch']
@@ -478,6 +543,8 @@ class Model:
                 stack.extend(nd['deps'])
             elif n in self.node_primary:
                 sids.add(self.node_primary[n])
+            elif n in self.node_multi:
+                sids.update(self.node_multi[n])
         return self.upstream_steps(sids)
 
     def default_nodes(self):
